@@ -6,14 +6,16 @@
 (*         cpuWroteTima, rtcHalted, cpuWroteIF]                                 *)
 (*   ["f", cyclesThisFrame]      runFrame returned                              *)
 (* family "twin": ["d", frame, digestRunFrame, digestReferenceLoop]             *)
+(* family "det" (C24): ["d3", frame, digestRunA, digestRunB, digestChildProcess]  *)
 (* family "run": ["frame", n] ["req"] ["ret", displayCleanups, speakerCleanups] *)
 EXTENDS System, TLC, Json, IOUtils
 Scens == ndJsonDeserialize(IOEnv.TRACE)
-VARIABLES sc, l, prevc, n
+VARIABLES sc, l, prevc, n, solo
 \* prevc: the previous cycle event (or <<>>); n: cycles seen in the current frame
-vars == <<svars, sc, l, prevc, n>>
+\* solo: (instance, frame) -> digest of the instance running alone (C25)
+vars == <<svars, sc, l, prevc, n, solo>>
 Ev == Scens[sc].ev[l]
-Init == sc \in 1..Len(Scens) /\ l = 1 /\ prevc = <<>> /\ n = 0 /\ RInit
+Init == sc \in 1..Len(Scens) /\ l = 1 /\ prevc = <<>> /\ n = 0 /\ RInit /\ solo = <<>>
 
 CycleEv(e) ==
    /\ e[2] = n                                                     \* the loop index counts 0 .. 17555
@@ -31,10 +33,16 @@ CycleEv(e) ==
 FrameEnd(e) == /\ n = FrameCycles /\ e[2] = FrameCycles /\ n' = 0 /\ UNCHANGED <<prevc, svars>>
 
 Next == /\ l <= Len(Scens[sc].ev) /\ l' = l + 1 /\ UNCHANGED sc
+        /\ (Ev[1] # "solo" => UNCHANGED solo)
         /\ LET e == Ev IN
            CASE e[1] = "c" -> CycleEv(e)
+             [] e[1] = "solo" -> /\ solo' = [k \in (DOMAIN solo) \cup {<<e[2], e[3]>>} |-> IF k = <<e[2], e[3]>> THEN e[4] ELSE solo[k]]
+                                 /\ UNCHANGED <<svars, prevc, n>>
+             [] e[1] = "multi" -> /\ <<e[2], e[3]>> \in DOMAIN solo /\ solo[<<e[2], e[3]>>] = e[4]      \* C25: as if it were the only instance
+                                  /\ UNCHANGED <<svars, prevc, n>>
              [] e[1] = "f" -> FrameEnd(e)
              [] e[1] = "d" -> e[3] = e[4] /\ UNCHANGED <<svars, prevc, n>>
+             [] e[1] = "d3" -> e[3] = e[4] /\ e[4] = e[5] /\ UNCHANGED <<svars, prevc, n>>   \* C24: two runs in this process and one in another process agree
              [] e[1] = "frame" -> Frame /\ frames' = e[2] /\ UNCHANGED <<prevc, n>>
              [] e[1] = "req" -> Request /\ UNCHANGED <<prevc, n>>
              [] e[1] = "ret" -> Stop /\ e[2] = e[4] /\ e[3] = e[5] /\ UNCHANGED <<prevc, n>>
